@@ -1,6 +1,7 @@
 import Scion.Model.Net
 import Scion.Proofs.Net
 import Scion.Proofs.NetEdge
+import Scion.Proofs.NetMirror
 /-!
 # C03 — Reversed paths carry replies back to the source
 
@@ -80,5 +81,24 @@ theorem reverse_run_partial (mac : MacFn) (net : Net) (now : Nat)
     rw [hd] at this
     simp only [Bool.not_false] at this
     exact ⟨cr, by rw [h4, this]⟩
+
+/-- **C03 for every path without peering**, any number and combination of segments, shortcuts
+    included; one border router per AS.  The delivered packet, reversed, is exactly the packet that
+    path combination would build over the mirrored segment list (`reverse_finalCur`: every SegID
+    the routers left behind is the initial value for the way back — C22 — and `Decoded.Reverse`
+    mirrors positions), the mirrored list is again well linked (`specsLink_rev`), so C02 applies
+    to the way back; the interfaces are those of the way there in reverse order. -/
+theorem reverse_run_nonpeering_partial (mac : MacFn) (net : Net) (now : Nat)
+    (hWF : WFNet net) (hUp : AllUp net) (hSR : SingleRouter net)
+    (edges : List Edge) (src dst : Nat) (c cf : Cursor) (tr : List (Nat × Nat))
+    (hnp : ∀ e ∈ edges, e.peer = none)
+    (hJ : Joinable mac net edges src dst) (hp : pathOf edges = some c) (hexp : Unexpired now c)
+    (hsend : send mac net now src dst c = .delivered dst tr cf) :
+    ∃ cr, send mac net now dst src (reverseCursor cf) = .delivered src tr.reverse cr :=
+  reverse_run_nonpeer mac net now src dst hWF hUp hSR edges c cf tr hnp hJ hp hexp hsend
+
+/-- still open (stated by `C03_full`, tied by the engine): the way back over peering paths and
+    several border routers per AS -/
+def remaining : Prop := C03_full
 
 end Scion.C03
